@@ -139,7 +139,7 @@ def run(tier):
     # the library's string ends there, so FILE (mapped and passed as one string) assembles the text in front of the NUL - and stdin,
     # read line by line with getline(), has to give the same bytes, count and exit status (binary and count outputs only; whole or in pieces)
     for pi, (prog, valid) in enumerate(progs[:6] if not full else progs[:40]):
-        for nul in ("\0", "\0nop", "nop\0", "nop\0ret", " \0 "):
+        for nul in ("\0", "\0nop", "nop\0", "nop\0ret", " \0 ", "nop\r", "\r", "nop\x0c", "\x1a", "nop\x0bnop", "\x01nop"):
             k = rnd.randrange(len(prog) + 1)
             p2 = list(prog[:k]) + [nul] + list(prog[k:]) + ["nop3"]
             for src, extra in (("FILE", {}), ("stdin", {}), ("stdin", {"pieces": rnd.choice([1, 7, 40])})):
@@ -588,7 +588,7 @@ def run(tier):
                 stats["valgrind_runs"] += 1
                 v.distinct(("vg", how, LEN))
     v.cov["rule"] = ("asmline (tools/asmline.c built with ASan+UBSan from the working tree) vs the library driven through the corresponding documented option calls: seeded programs (valid, with option-sensitive probe lines, "
-                     "with one invalid line, executable ones returning values up to 2^64-1, empty / blank / comment-only programs, programs of 100-3000 (thorough: 6000) lines) x every mode flag and non-conflicting flag pairs x outputs {-p, -P file, -P /dev/stdout, -o, -c N (binary), -p -c N, -b N, -p -b N, a printed and a file output together (-p -P, -p -o, -b -P, -p -b -o), -r, -r=0/2/3/100, --return[=5], unwritable -P, printed outputs to a full / closed standard output; 21 spellings of the number given to -c / -b (huge, fractional, trailing characters, hex, signs, blanks); chunk sizes 4..10^6; options before or after FILE, output names of 272 characters / with blanks, UTF-8, '%'; 29 other spellings of the command line (long options, '=' forms, unique abbreviations, bundled short options, '--')} x {FILE, stdin, stdin delivered in pieces of 1 / 7 / 40 / 4096 bytes}. Input containing a NUL byte (as a line, in front of / inside / after an instruction, followed by more lines) from FILE, stdin and stdin in pieces, binary and count outputs: all three must equal the library's result on the same string. "
+                     "with one invalid line, executable ones returning values up to 2^64-1, empty / blank / comment-only programs, programs of 100-3000 (thorough: 6000) lines) x every mode flag and non-conflicting flag pairs x outputs {-p, -P file, -P /dev/stdout, -o, -c N (binary), -p -c N, -b N, -p -b N, a printed and a file output together (-p -P, -p -o, -b -P, -p -b -o), -r, -r=0/2/3/100, --return[=5], unwritable -P, printed outputs to a full / closed standard output; 21 spellings of the number given to -c / -b (huge, fractional, trailing characters, hex, signs, blanks); chunk sizes 4..10^6; options before or after FILE, output names of 272 characters / with blanks, UTF-8, '%'; 29 other spellings of the command line (long options, '=' forms, unique abbreviations, bundled short options, '--')} x {FILE, stdin, stdin delivered in pieces of 1 / 7 / 40 / 4096 bytes}. Input containing a NUL byte or a control byte (CR, FF, VT, SUB, SOH) (as a line, in front of / inside / after an instruction, followed by more lines) from FILE, stdin and stdin in pieces, binary and count outputs: all three must equal the library's result on the same string. "
                      "-r / -r=LEN / --return=LEN / --rand additionally under valgrind memcheck with programs that touch the last element of all six arrays. Binary outputs must equal the library bytes, -p the hex rows per instruction (chunk rows with -c), -b the library count, -r the value the code returns; exit status 0 iff assembly and output succeeded")
     v.cov["exhaustive"] = False
     v.cov.update(stats)
